@@ -35,6 +35,9 @@ class Contract:
 	types: dict[str, str] = field(default_factory=dict)  # parameter / local / return types where annotations are missing or abstract
 	instantiate: dict[str, list[Any]] = field(default_factory=dict)
 	rewrites: dict[str, str] = field(default_factory=dict)  # unparse(call) -> contract expression (an assumed reading of an external call)
+	rewrite_patterns: dict[str, str] = field(default_factory=dict)  # regex over unparse(call) -> replacement template (\\1 ...): rewrites that must survive edits of an argument
+	hook_only: bool = False  # the body is outside the VC subset: only the derived obligations of post_hook are generated
+	post_hook: Any = None  # callable(engine, fnctx): adds derived obligations (e.g. memo-key injectivity) for this function
 	stmt_rewrites: dict[str, str] = field(default_factory=dict)  # unparse(statement) -> replacement statements (an assumed reading of a statement outside the subset; always reported)
 	hints_entry: list[str] = field(default_factory=list)
 	hints_exit: list[str] = field(default_factory=list)
